@@ -272,7 +272,9 @@ func firstLines(s string, n int) string {
 
 func check(t ev.TB, test string, c Case) {
 	ev.Eval()
+	ev.Begin(test, c)
 	v := runCase(c)
+	ev.End()
 	if v.unusable != "" {
 		ev.Label(c.Kind + ":discarded-not-type-correct")
 		return
